@@ -3,7 +3,7 @@
 c08_faults.py decides the containment half against every behaviour a parser may have within its contract.  The other half of
 the statement - "for any docstring text ... always succeeds" through the real regex/docutils parsers - cannot be put to a
 solver.  What is decided here, as bounded-exhaustive exploration (class E), is a structure-aware generator of TROUBLESOME
-docstrings: a docstring is a sequence of up to 2 (3) fragments from a menu of 28 fragments that are malformed, borderline or
+docstrings: a docstring is a sequence of up to 2 (3) fragments from a menu of 29 fragments that are malformed, borderline or
 foreign in at least one docformat (unbalanced inline markup, unknown tags/roles/directives, broken indentation, headings whose
 title has no ASCII letters, malformed fields and sections, undefined substitutions and footnotes, broken tables, ...), attached
 to a function (a neighbour function has a healthy docstring), under each docformat, with and without type processing.  The real
@@ -63,6 +63,7 @@ FRAGMENTS = [
     ("html_and_entities", ["markza <b>markzb</b> &amp; &nosuch; &#0; markzc."]),
     ("field_indented_then_dedented", ["  @note: markxd indented note", "@note: markxe dedented note"]),
     ("non_breaking_space", ["markxf non\u00a0breaking markxg."]),
+    ("type_value_set_with_markup", [":param p: markxk described", ":type p: {`markxi`, 2}", "", "@param p: markxj described", "@type p: {C{markxh}, 2}"]),
 ]
 NF = len(FRAGMENTS)
 MARK = re.compile(r"mark[a-z]{2}")
@@ -98,8 +99,7 @@ def render_all(fmt, doc, processtypes, summary_first=False):
     if summary_first:
         out["summary"] = flatten(epydoc2stan.format_summary(f))
     stan = epydoc2stan.format_docstring(f)
-    out["doc"] = flatten(stan)
-    out["text"] = flatten_text(stan)
+    out["text"] = flatten_text(stan)        # (flattened once: the tree holds generators, a second flattening would find them exhausted)
     if not summary_first:
         out["summary"] = flatten(epydoc2stan.format_summary(f))
     toc = epydoc2stan.format_toc(f)
@@ -144,6 +144,10 @@ def check_real(fmt, kinds, processtypes, summary_first=False):
     if "m.g" in s.parse_errors.get("docstring", ()):
         note(why="another object is recorded as having a docstring problem", **ctx)
         return False
+    # a docstring the parser gave up on (shown as plain text although the docformat is not plaintext) is a reported problem
+    if fmt != "plaintext" and out["parsed_as"] == "ParsedPlaintextDocstring" and not msgs:
+        note(why="the docstring was degraded to plain text but nothing was reported", **ctx)
+        return False
     # (2) the words
     words = MARK.findall(doc)
     text = out["text"]
@@ -185,7 +189,7 @@ MAXF = tier(2, 3)
     parts=lambda: [[f, k] for f in range(5) for k in range(NF)], timeout=(300, 2400), cls="E", tracing="concrete-after-choice", twin="first",
     code=["pydoctor.epydoc.markup.epytext (parse, _tokenize*, _add_*, ParsedEpytextDocstring.to_node/get_toc)", "pydoctor.epydoc.markup.restructuredtext (parse_docstring, _EpydocReader, _SplitFieldsTranslator)",
           "pydoctor.epydoc.markup._napoleon / pydoctor.napoleon.docstring", "pydoctor.epydoc.markup.plaintext", "pydoctor.epydoc.docutils.build_table_of_content", "pydoctor.node2stan", "pydoctor.epydoc2stan (wrappers, FieldHandler, reportErrors)"],
-    bounds={"quick": "docstrings of 1..2 fragments from a menu of 28 troublesome fragments, 5 docformats, type processing on/off, summary produced before or after the body (16 240 renderings)", "thorough": "1..3 fragments (455 000 renderings)"},
+    bounds={"quick": "docstrings of 1..2 fragments from a menu of 29 troublesome fragments, 5 docformats, type processing on/off, summary produced before or after the body (16 240 renderings)", "thorough": "1..3 fragments (455 000 renderings)"},
     outside="texts outside the generator; hangs; objects other than a function",
 )
 def h_real_parsers(k2: int, k3: int, pt: bool, sf: bool) -> bool:
